@@ -229,3 +229,45 @@ def show_node(meta, n, model=None):
         kids = n.fields[1].items
         return name + ('(' + ' '.join(show_node(meta, k, model) for k in kids) + ')' if kids else '')
     return repr(n)
+
+
+def node_shape(meta, n, model=None):
+    """the runner's `shape` rendering of a (symbolic) Node under a model: Name[payload](child child ...)"""
+    import replay
+    op = n.fields[0]
+    v = op.variant
+    if not isinstance(v, int):
+        v = eval_term(v, model).as_long()
+    name = meta.enums['Operator'][v][0]
+    s = name
+    if name == 'Const':
+        s += '[%s]' % replay.enc_value(tuple_py(render_value(meta, op.fields[0], model)))
+    elif name in ('VariableIdentifierRead', 'VariableIdentifierWrite', 'FunctionIdentifier'):
+        s += '[%s]' % replay.hx(render_str(op.fields[0], model))
+    return s + '(' + ' '.join(node_shape(meta, c, model) for c in n.fields[1].items) + ')'
+
+
+def tuple_py(v):
+    if isinstance(v, (list, tuple)) and len(v) == 2 and v[0] == 'Tuple':
+        return ('Tuple', [tuple_py(x) for x in v[1]])
+    return tuple(v) if isinstance(v, list) else v
+
+
+def validate_tree_path(C, res, S, o, model, rate_rng, rate):
+    """engine validation for tree-builder paths: render the skeleton under a model of the path condition, build it natively and compare
+    the outcome (tree shape or error name) with what the symbolic path predicts"""
+    import replay
+    if rate_rng.random() >= rate or model is None or o.kind != 'return':
+        return
+    src = S.render(model)
+    out = replay.run_cases(replay.case_text('b', 'build', src), 'dev')['b']
+    if o.value.variant == 0:
+        pred = node_shape(C.meta, o.value.fields[0], model)
+        nat = out.get('shape')
+    else:
+        pred = error_name(C.meta, o.value.fields[0])
+        nat = (out.get('build') or ('?', '?'))[1]
+    if pred == nat:
+        res.traces_validated += 1
+    else:
+        res.inconclusive.append('engine validation: `%s` predicted %s, native %s' % (src, pred, nat or out.get('panic')))
